@@ -35,11 +35,20 @@ CHECK = Check(
         "Lag: buffer at least as long as int(timeLag) ≥ 0 (a shorter state row makes the Go code index out of range — modelled as an error)",
     ],
     partial=[
-        "root_converges_partial: on the root-finder exit |residual| < massBalanceLimit is proved only when interval halving alone "
-        "suffices within the 20 iterations (residual non-decreasing and L-Lipschitz with L·(maxQI−minQI)/2^20 < 1e-3); missing: that the "
-        "secant/Newton trials always make 20 iterations suffice (for m < 1 the residual's slope is unbounded near q = 0). "
-        "calcOutflow_balance/run_balance therefore state the balance on that exit as 0 ≤ err ≤ max 0 residual, < massBalanceLimit when "
-        "FindRoot returned through its tolerance test; the oracle checks the unconditional statement on every generated step",
+        "root_converges_partial: on the root-finder exit |residual| < massBalanceLimit is proved when interval halving alone "
+        "suffices within the 20 iterations (residual non-decreasing and L-Lipschitz with L·(maxQI−minQI)/2^20 < 1e-3). The statement "
+        "WITHOUT that hypothesis is FALSE for the code: root_not_converged_counterexample / run_not_converged_counterexample (bias 0, "
+        "k = 1e6, m = 0.05, 1000 m³, no inflow: all 20 iterations stall, the step empties the reach, residual 1000 m³; proved in exact "
+        "arithmetic through the certificate OW.Proofs.FindRoot.stalled_findRoot, and reproduced bit for bit on the real code by the "
+        "corpus cases of harness/cmd/owharness/corpus_C11.go — known finding KF-C11-StorageRouting-unconverged-small-power; on the real "
+        "code unconverged steps appear for m ≲ 0.15, none was found for m ≥ 0.2)",
+        "what IS proved for every parameter set and input on that exit: root_exit_unconditional (returned index flow in [minQI, maxQI], "
+        "delta is its residual, bracket sign invariant kept by every trial kind, no convergence-in-x exit, tolerance exit ⇒ |residual| < "
+        "massBalanceLimit, fuel exit ⇒ final bracket ≤ (maxQI−minQI)/2^20 wide and |residual| ≤ the residual at both of its ends) and, for "
+        "zero bias, root_residual_le_ends_zero_bias (|residual| < massBalanceLimit or ≤ the residual at the better end of the initial bracket; "
+        "tight: attained by the counter-example). calcOutflow_balance/run_balance state the balance on that exit as 0 ≤ err ≤ max 0 residual, "
+        "< massBalanceLimit when FindRoot returned through its tolerance test; the oracle checks the unconditional statement on every "
+        "generated step (generator: m ∈ [0.3, 1] ∪ {1±ε} ∪ (1.001, 1.6))",
     ],
 )
 
@@ -50,7 +59,8 @@ META = dict(
          "int(timeLag) steps with the carried-over buffer, any lag and length, final buffer = last lag elements of buffer ++ inflow "
          "(proved through the in-place loops of the code); StorageRouting: per exit path of calcOutflow the water balance "
          "(exact or within the accepted residual), outflow ≥ 0, storage ≥ 0, and S = k·q^m + dead on the root-found path via the C18 "
-         "FindRoot theorems. Models tied to the code by differential execution on every run.",
+         "FindRoot theorems; what the 20-iteration root search guarantees unconditionally, and a proved counter-example (m = 0.05) to "
+         "\"20 iterations always reach the tolerance\", confirmed on the real code (known finding). Models tied to the code by differential execution on every run.",
     design_ref="DESIGN.md §6 C11",
     note="Repairs modelled: Muskingum carries inflow+lateral, Lag buffer handling, StorageRouting initial storage (already in /repo); "
          "zero-outflow exits report the balance storage, full-drain exit drains the lateral, convergenceLimit = 0 (fixes/storage_routing_*.diff).",
